@@ -1634,7 +1634,8 @@ def e2e_scripts(ctx, impl, funcs, items, d, data, exe, tag):
     return out
 
 
-def e2e_run(ctx, impl, funcs, tag, extra_opts=(), judge_ret=True, scripts=False, nonleaf=False):
+def e2e_run(ctx, impl, funcs, tag, extra_opts=(), judge_ret=True, scripts=False, nonleaf=False, explicit=None,
+            libc_lines=None):
     """compile, record with --auto-args (+ extra -A/-R options), replay; returns list of (func, problem or None).
     judge_ret=False: the extra options put further return value specs in front, only the arguments and the
     completeness of the call sequence are judged"""
@@ -1685,7 +1686,7 @@ def e2e_run(ctx, impl, funcs, tag, extra_opts=(), judge_ret=True, scripts=False,
         funcs = [f for f in funcs if f is not lost]
     elif want is not None:
         # library calls whose specs come from the built-in auto-args table
-        for line in E2E_LIBC_LINES:
+        for line in (libc_lines or E2E_LIBC_LINES):
             if not re.search(rb"(?m)^" + re.escape(line) + rb"$", p.stdout):
                 out.append((funcs[-1], "--auto-args on a library call: replay has no line %r (it shows %r)"
                             % (line.decode(), [l for l in p.stdout.split(b"\n") if l.startswith(line[:6])])))
@@ -1694,6 +1695,15 @@ def e2e_run(ctx, impl, funcs, tag, extra_opts=(), judge_ret=True, scripts=False,
         if sp is None or f["name"] not in shown:
             out.append((f, "no debug info / no replay line for %s" % f["name"]))
             continue
+        if explicit and f["name"] in explicit:
+            # an explicit -A / -R spec for a function --auto-args knows too: libmcount keeps the explicit spec of that
+            # direction only (update_filter: "ignore auto-args if it already has argspec"), the readers must do the same
+            ex = explicit[f["name"]]
+            if ex.get("A"):
+                sp = dict(sp, A=[ex["A"]])
+                f = dict(f, actual=[f["actual"][ex["j"]]])
+            if ex.get("R"):
+                sp = dict(sp, R=[ex["R"]])
         if len(sp["A"]) != len(f["actual"]) or (f["ractual"] is not None and len(sp["R"]) != 1):
             out.append((f, "--auto-args produced %d argument specs (%s) for %d parameters, %d return specs"
                         % (len(sp["A"]), ",".join(sp["A"]), len(f["actual"]), len(sp["R"]))))
@@ -1718,6 +1728,8 @@ def e2e_run(ctx, impl, funcs, tag, extra_opts=(), judge_ret=True, scripts=False,
         bad = set(coq.parse_nat_list(res["bad"])) if res else set()
         for i, (f, pa, pr) in enumerate(items):
             out.append((f, ("replay shows %s%s" % f["shown"]) if i in bad else None))
+        if explicit:
+            out += e2e_dump(ctx, impl, funcs, items, data)
         if scripts:
             out += e2e_scripts(ctx, impl, funcs, items, d, data, exe, tag)
             out += e2e_dump(ctx, impl, funcs, items, data)
@@ -1858,11 +1870,33 @@ def e2e(ctx, impl):
         # before the (floating-point) return value is captured
         both = ["-R", "^g[0-9]+$@retval/f", "-R", "^g[1-9][0-9]*$@retval/x"]
         rdtr = ["-T", "^g[1-9][0-9]*$@read=proc/statm"]
+        # (d) --auto-args plus an explicit -A / -R for functions auto-args knows too (DWARF functions and libc functions
+        # of the built-in table), naming another set of arguments: writer and readers must build the same spec list
+        explicit, mixed = {}, []
+        for f in funcs:
+            simple = 0
+            while simple < min(len(f["actual"]), 6) and f["actual"][simple][0] in ("txt", "strv", "null") and \
+                    (f["actual"][simple][0] != "txt" or f["actual"][simple][2][0] in ("ints", "str", "anyint")):
+                simple += 1
+            cand = [j for j in range(simple) if f["actual"][j][0] in ("strv", "null") or f["actual"][j][2][0] == "ints"]
+            if cand and ctx.rng.random() < 0.6:
+                j = ctx.rng.choice(cand)
+                spec = "arg%d/%s" % (j + 1, "s" if f["actual"][j][0] in ("strv", "null") else ctx.rng.choice(["x", "d", "u"]))
+                explicit[f["name"]] = {"A": spec, "j": j}
+                mixed += ["-A", "%s@%s" % (f["name"], spec)]
+            if f["ractual"] is not None and f["ractual"][0] == "txt" and f["ractual"][2][0] == "ints" and ctx.rng.random() < 0.4:
+                explicit.setdefault(f["name"], {})["R"] = "retval/x"
+                mixed += ["-R", "%s@retval/x" % f["name"]]
+        mixed += ["-A", "strcmp@arg2/s", "-R", "getenv@retval/p"]
+        mixed_libc = [b'  atoi("4217") = 4217;', b'  strcmp("zebra") = 0;', b'  getenv("C09_NOT_SET") = 0;']
         for variant, opts, judge_ret in (("auto-args", [], True), ("auto-args+explicit-retvals", both, False),
-                                         ("auto-args+read-trigger", rdtr, True)):
+                                         ("auto-args+read-trigger", rdtr, True), ("auto-args+explicit-specs", mixed, True)):
             nbad = 0
-            for f, problem in e2e_run(ctx, impl, funcs, "p%d%s" % (rnd, "x" if opts is both else "r" if opts else ""),
-                                      opts, judge_ret, scripts=not opts, nonleaf=opts is rdtr):
+            for f, problem in e2e_run(ctx, impl, funcs, "p%d%s" % (rnd, "x" if opts is both else "r" if opts is rdtr
+                                                                   else "m" if opts is mixed else ""),
+                                      opts, judge_ret, scripts=not opts, nonleaf=opts is rdtr,
+                                      explicit=explicit if opts is mixed else None,
+                                      libc_lines=mixed_libc if opts is mixed else None):
                 if f is None:
                     ctx.broken("end-to-end run failed: " + problem)
                     continue
